@@ -454,7 +454,10 @@ class Flow:
 
     def ev_Def(self, fr, n, ctx, stack):
         dk = n.get('dk', '')
-        if dk.startswith('Ctor') or dk in ('Fn', 'AssocFn', 'SelfCtor'):
+        if dk in ('Fn', 'AssocFn'):
+            # a function item used as a value (e.g. `.flat_map(Gate::wires_coeff)`): its result will flow
+            return frozenset(['c:' + qual(n.get('rd') or n.get('d'))])
+        if dk.startswith('Ctor') or dk == 'SelfCtor':
             return EMPTY
         d = n.get('rd') or n.get('d')
         return frozenset(['d:' + qual(d)])
@@ -661,6 +664,7 @@ class Flow:
         if 'e' in n:
             v = self.ev(fr, n['e'], ctx, stack)
             fr.rets.append(v)
+            self.events.append(Event('return', n, fr.fn, ctx, stack, val=v))
         return EMPTY
 
     def ev_Break(self, fr, n, ctx, stack):
